@@ -15,7 +15,7 @@ RULE = ('names: the 5 built-in verbatim-like names and user-chosen names passed 
         'Second body class: renderings of generated well-formed fragments - opaque with the option, parsed into exactly '
         'the fragment\'s tree without it. Non-trivial = the body has an unbalanced delimiter or a \\begin/\\end; '
         'distinct by (source, options)'
-        '. Also: blanks between \\\\begin and the name group, blank-padded and prefix-extended user names, and a look-alike (starred / unstarred) of the listed name, which must be parsed normally')
+        '. Also: blanks between \\begin and the name group, blank-padded and prefix-extended user names, and a look-alike (starred / unstarred) of the listed name, which must be parsed normally')
 ASSUMPTIONS = [
     'verbatim-like environments are placed at top level, inside named environments and (since the D6 repair) inside items, groups and bracket arguments',
     '"starts with a brace/bracket" is read modulo the attaching blanks of C09',
